@@ -87,6 +87,9 @@ def main(tier):
     # transport side: kick and drift reproduce polynomials of degree <= 2 (so they transport second moments exactly) for >= 3 interpolation points
     import c02
     jobs += [(c02.job_poly, (n, it, axis, r, 1)) for n in (10, 11) for it in (3, 4) for axis in (0, 1) for r in (2, 6)]
+    # observation side: the reported bunch length / energy spread are the second moments of the profiles over the charge actually on the grid (whatever was lost before)
+    import c09
+    jobs += [(c09.job_moments, (6, 3, 2, ax, (-6, 6), (-6, 6))) for ax in (0, 1)] + [(c09.job_moments, (5, 1, 0, 1, (-5, 7), (-6.5, 5.5)))]
     chk.bounds = {'operator': 'real constructor run from IR, symbolic e1 in (0,1/4], grids %s with centred and shifted energy axis, one symbolic data column, support >= 2 rows from the border and (4-point) away from the 4 rows around the stencil switch' % [c[0] for c in cfgs],
                   'convergence': 'derived from the one-step recurrences by the solver; iteration over many damping times is not executed'}
     chk.assumptions = ['floats as reals (tolerance 1e-5*sum|f|)', 'the transport part (kick/drift) reproduces second moments for >= 3 interpolation points (C02 polynomial obligation); for 2 points it adds f(1-f) <= 1/4 cell^2 per step',
@@ -94,7 +97,9 @@ def main(tier):
     chk.stubs = ['operator new/delete', 'random_device fixed seed', 'sqrt(2*e1) uninterpreted']
     import c02 as _c02
     _r4 = replayer(bld); _r2 = _c02.replayer(bld)
-    chk.replayer = lambda path, c: (_r2 if c.get('replay') == 'poly' else _r4)(path, c)
+    import c09 as _c09
+    _r9 = _c09.replayer(_c09.ps_build())
+    chk.replayer = lambda path, c: (_r2 if c.get('replay') == 'poly' else _r9 if c.get('replay') in ('moments', 'normalize') else _r4)(path, c)
     _unused = None
     chk.add(run_jobs(jobs, budget=600))
     chk.finish()
